@@ -1,5 +1,5 @@
 import json
-CLAIMED = json.load(open('/verif/scratch/claimed.json'))
+CLAIMED = json.load(open('/verif/tools/claimed.json'))
 NA = {
  "C01": "pure function of program text and input values (expression/assignment semantics vs CPython): no schedule, clock, peer or fault in the statement or its quantifier; deciding it needs differential program generation, a different technique",
  "C02": "pure function of the program skeleton (control-flow/exception paths vs CPython): nothing for a simulator to schedule or fault",
